@@ -152,7 +152,7 @@ Definition handle_obs (st : pstate) (o : obs) : pstate * list out :=
       | Some sg =>
         match our_vaa e1 with
         | Some v =>
-          if (go_quorum (Z.of_nat (length (keys g))) <=? Z.of_nat (length sg)) && negb (submitted e1) then
+          if proc_local_quorum_reached (go_quorum (Z.of_nat (length (keys g)))) (Z.of_nat (length sg)) && negb (submitted e1) then
             let signed := set_sigs v sg in
             match sg with
             | [] => (with_agg st (aset (o_hash o) e1 (agg st)), [Panic PanicStoreUnsigned])
@@ -178,7 +178,7 @@ Definition handle_inbound (st : pstate) (b : bytes) : pstate * list out :=
     | Some g =>
       if (length (keys g) =? 0)%nat then (st, []) else
       if (length (sigs v) =? 0)%nat then (st, []) else
-      if Z.of_nat (length (sigs v)) <? go_quorum (Z.of_nat (length (keys g))) then (st, []) else
+      if proc_inbound_below_quorum (Z.of_nat (length (sigs v))) (go_quorum (Z.of_nat (length (keys g)))) then (st, []) else
       if negb (verify_sigs rec keccak v (keys g)) then (st, []) else
       match dlookup (id_of v) (db st) with
       | Some _ => (st, [])
